@@ -8,22 +8,27 @@ package main
 //	                                      boss  string   fk index, cascade  -> A.minions (AddFkIndexCascadeDelete, self reference)
 //	                                      dep   *string  fk constraint      -> B         (AddFkConstraint, nullable?, cascade none|delete)
 //	store B ("owners", base path ["u"])   things fk-set (back-references of A.owner)
-//	store C: plain child store of A (entity path ["ext1"] inside A's entity bucket): tag *string, no constraints of
-//	         its own.  Create through it (also over an already existing plain A entity: the parent's old fk values are
-//	         captured and ProcessAfterUpdate runs with IsCreate = true), Update through it, Update through A is handed
-//	         to it by the registered ChildStoreUpdateHandler whenever child data exists, DeleteById through it goes to
-//	         A.DeleteById, which runs ProcessBeforeDelete of A's constraints TWICE for an entity with child data
-//	         (once inside the child store's processDeleteConstraints, once in A's own).
+//	stores C, C2: plain sibling child stores of A (entity paths ["ext1"], ["ext2"] inside A's entity bucket):
+//	         tag *string, mentor *string (fk -> B), guard *string (fk -> B).  Per schema variant a child store declares
+//	         AddNullableFkIndex(mentor, B.mentees1 / B.mentees2) and / or AddFkConstraint(guard, nullable, CascadeNone).
+//	         Create through a child store (also over an already existing A entity, possibly holding data of the sibling:
+//	         the parent's old fk values are captured and ProcessAfterUpdate runs with IsCreate = true), Update through
+//	         it, Update through A is handed to the first registered child store that holds data for the entity,
+//	         DeleteById through it goes to A.DeleteById, which runs one processDeleteConstraints round per child store
+//	         holding data (A's constraints + that child store's) and then A's own.
 //
-// Schema variant v (0..7): bit0 = dep cascades on delete (else restrict), bit1 = dep nullable,
-// bit2 = the dep constraint is wired before the indexes (changes the constraint order on A and B).
+// Schema variant v (0..255): bit0 = dep cascades on delete (else restrict), bit1 = dep nullable,
+// bit2 = the dep constraint is wired before the indexes (changes the constraint order on A and B),
+// bit3 / bit4 = C / C2 declares the mentor fk index, bit5 / bit6 = C / C2 declares the guard fk constraint,
+// bit7 = C2's ChildStoreStrategy is registered before C's.
 //
 // Case line:   h|v <variant> <tx> <tx> ...        (v = verbose: full observation instead of a digest)
 //
 //	tx  = op,op,...      (one bbolt transaction; the first failing op aborts and rolls it back)
 //	op  = cb:<id> | ca:<id>:<owner>:<boss>:<dep> | ua:<id>:<mask>:<owner>:<boss>:<dep> | da:<id> | db:<id>
-//	    | cc:<id>:<owner>:<boss>:<dep>:<tag> | uc:<id>:<mask>:<owner>:<boss>:<dep>:<tag> | dc:<id>     (through the child store;
-//	      tag like owner; mask additionally bit4 (16) = tag)
+//	    | cc:<id>:<owner>:<boss>:<dep>:<tag>[:<mentor>:<guard>] | uc:<id>:<mask>:<owner>:<boss>:<dep>:<tag>[:<mentor>:<guard>]
+//	    | dc:<id>   (through child store C)      c2: / u2: / d2: the same through C2
+//	      tag, mentor, guard like owner; mask additionally 16 = tag, 32 = mentor, 64 = guard
 //	      owner/dep: "~" = nil pointer, otherwise wire string ("-" = empty); boss: wire string
 //	      mask: bit0 owner, bit1 boss, bit2 dep are in the FieldChecker; 8 = nil checker (all fields)
 //
@@ -37,8 +42,8 @@ package main
 //
 // coarse = digest of: surviving ids of A and B (IterateIds), stored field values of every A,
 //
-//	GetRelatedEntitiesIdList(things) of every B and GetRelatedEntitiesIdList(minions) of every A, and what the
-//	child store holds for every A (FindById through it: "!" = no child data, otherwise the tag).
+//	GetRelatedEntitiesIdList(things / mentees1 / mentees2) of every B and GetRelatedEntitiesIdList(minions) of every A,
+//	and what each child store holds for every A (FindById through it: "!" = no child data, otherwise tag/mentor/guard).
 //
 // In verbose mode the two observation texts are printed instead of their digests.
 
@@ -87,7 +92,9 @@ func (e *c04B) GetEntityType() string { return c04TypeB }
 // c04C: entity of the plain child store of A
 type c04C struct {
 	c04A
-	Tag *string
+	Tag    *string
+	Mentor *string
+	Guard  *string
 }
 
 type c04CStrategy struct{ parent *boltz.BaseStore[*c04A] }
@@ -97,10 +104,14 @@ func (s *c04CStrategy) FillEntity(e *c04C, b *boltz.TypedBucket) {
 	_, err := s.parent.LoadEntity(b.Tx(), e.Id, &e.c04A)
 	b.SetError(err)
 	e.Tag = b.GetString("tag")
+	e.Mentor = b.GetString("mentor")
+	e.Guard = b.GetString("guard")
 }
 func (s *c04CStrategy) PersistEntity(e *c04C, ctx *boltz.PersistContext) {
 	s.parent.GetEntityStrategy().PersistEntity(&e.c04A, ctx.GetParentContext())
 	ctx.SetStringP("tag", e.Tag)
+	ctx.SetStringP("mentor", e.Mentor)
+	ctx.SetStringP("guard", e.Guard)
 }
 
 type c04AStrategy struct{}
@@ -131,6 +142,14 @@ type c04Stores struct {
 	a *c04AStore
 	b *c04BStore
 	c *c04CStore
+	c2 *c04CStore
+}
+
+func (st *c04Stores) child(second bool) *c04CStore {
+	if second {
+		return st.c2
+	}
+	return st.c
 }
 
 func c04NewStores(variant int) *c04Stores {
@@ -171,35 +190,62 @@ func c04NewStores(variant int) *c04Stores {
 		a.AddFkConstraint(dep, nullable, cascade)
 	}
 
-	// the plain child store of A: its own data lives in <entity bucket>/ext1
-	c := &c04CStore{BaseStore: boltz.NewBaseStore(boltz.StoreDefinition[*c04C]{
-		EntityStrategy: &c04CStrategy{parent: a.BaseStore},
-		BasePath:       []string{"ext1"},
-		Parent:         a,
-		ParentMapper: func(e boltz.Entity) boltz.Entity {
-			if x, ok := e.(*c04C); ok {
-				return &x.c04A
-			}
-			return e
-		},
-		EntityNotFoundF: func(id string) error { return boltz.NewNotFoundError(c04TypeA, "id", id) },
-	})}
-	c.InitImpl(c)
-	a.GrantSymbols(c)
-	c.AddSymbol("tag", ast.NodeTypeString)
-	// an update through A of an entity that has child data is carried out by the child store (new parent values,
-	// stored tag); deletes through A run the child store's delete constraints first
-	a.RegisterChildStoreStrategy(&boltz.ChildStoreUpdateHandler[*c04A, *c04C]{
-		Store: c,
-		Mapper: func(ctx boltz.MutateContext, p *c04A) (*c04C, bool) {
-			cur, found, _ := c.FindById(ctx.Tx(), p.Id)
-			if !found || cur == nil {
-				return nil, false
-			}
-			return &c04C{c04A: *p, Tag: cur.Tag}, true
-		},
-	})
-	return &c04Stores{a: a, b: b, c: c}
+	// the two plain sibling child stores of A: their data lives in <entity bucket>/ext1, /ext2
+	newChild := func(path string) *c04CStore {
+		c := &c04CStore{BaseStore: boltz.NewBaseStore(boltz.StoreDefinition[*c04C]{
+			EntityStrategy: &c04CStrategy{parent: a.BaseStore},
+			BasePath:       []string{path},
+			Parent:         a,
+			ParentMapper: func(e boltz.Entity) boltz.Entity {
+				if x, ok := e.(*c04C); ok {
+					return &x.c04A
+				}
+				return e
+			},
+			EntityNotFoundF: func(id string) error { return boltz.NewNotFoundError(c04TypeA, "id", id) },
+		})}
+		c.InitImpl(c)
+		a.GrantSymbols(c)
+		c.AddSymbol("tag", ast.NodeTypeString)
+		return c
+	}
+	c, c2 := newChild("ext1"), newChild("ext2")
+	// fks DECLARED BY the child stores (B's delete constraints for them come after A's, C's before C2's)
+	declare := func(ch *c04CStore, setName string, idx, fk bool) {
+		mentor := ch.AddFkSymbol("mentor", b)
+		guard := ch.AddFkSymbol("guard", b)
+		mentees := b.AddFkSetSymbol(setName, ch)
+		if idx {
+			ch.AddNullableFkIndex(mentor, mentees)
+		}
+		if fk {
+			ch.AddFkConstraint(guard, true, boltz.CascadeNone)
+		}
+	}
+	declare(c, "mentees1", variant&8 != 0, variant&32 != 0)
+	declare(c2, "mentees2", variant&16 != 0, variant&64 != 0)
+	// an update through A of an entity that has child data is carried out by the first registered child store holding
+	// data for it (new parent values, stored child fields); deletes through A run one round per child store holding data
+	register := func(ch *c04CStore) {
+		a.RegisterChildStoreStrategy(&boltz.ChildStoreUpdateHandler[*c04A, *c04C]{
+			Store: ch,
+			Mapper: func(ctx boltz.MutateContext, p *c04A) (*c04C, bool) {
+				cur, found, _ := ch.FindById(ctx.Tx(), p.Id)
+				if !found || cur == nil {
+					return nil, false
+				}
+				return &c04C{c04A: *p, Tag: cur.Tag, Mentor: cur.Mentor, Guard: cur.Guard}, true
+			},
+		})
+	}
+	if variant&128 != 0 {
+		register(c2)
+		register(c)
+	} else {
+		register(c)
+		register(c2)
+	}
+	return &c04Stores{a: a, b: b, c: c, c2: c2}
 }
 
 var c04StoreCache = map[int]*c04Stores{}
@@ -293,6 +339,10 @@ func (c c04Checker) IsUpdated(f string) bool {
 		return c.mask&4 != 0
 	case "tag":
 		return c.mask&16 != 0
+	case "mentor":
+		return c.mask&32 != 0
+	case "guard":
+		return c.mask&64 != 0
 	}
 	return false
 }
@@ -311,19 +361,27 @@ func c04Apply(st *c04Stores, ctx boltz.MutateContext, op string) error {
 			checker = c04Checker{mask: mask}
 		}
 		return st.a.Update(ctx, &c04A{Id: fromWire(f[1]), Owner: c04OptStr(f[3]), Boss: fromWire(f[4]), Dep: c04OptStr(f[5])}, checker)
-	case "cc":
-		return st.c.Create(ctx, &c04C{c04A: c04A{Id: fromWire(f[1]), Owner: c04OptStr(f[2]), Boss: fromWire(f[3]), Dep: c04OptStr(f[4])},
-			Tag: c04OptStr(f[5])})
-	case "uc":
+	case "cc", "c2":
+		e := &c04C{c04A: c04A{Id: fromWire(f[1]), Owner: c04OptStr(f[2]), Boss: fromWire(f[3]), Dep: c04OptStr(f[4])},
+			Tag: c04OptStr(f[5])}
+		if len(f) >= 8 {
+			e.Mentor, e.Guard = c04OptStr(f[6]), c04OptStr(f[7])
+		}
+		return st.child(f[0] == "c2").Create(ctx, e)
+	case "uc", "u2":
 		mask, _ := strconv.Atoi(f[2])
 		var checker boltz.FieldChecker
 		if mask&8 == 0 {
 			checker = c04Checker{mask: mask}
 		}
-		return st.c.Update(ctx, &c04C{c04A: c04A{Id: fromWire(f[1]), Owner: c04OptStr(f[3]), Boss: fromWire(f[4]), Dep: c04OptStr(f[5])},
-			Tag: c04OptStr(f[6])}, checker)
-	case "dc":
-		return st.c.DeleteById(ctx, fromWire(f[1]))
+		e := &c04C{c04A: c04A{Id: fromWire(f[1]), Owner: c04OptStr(f[3]), Boss: fromWire(f[4]), Dep: c04OptStr(f[5])},
+			Tag: c04OptStr(f[6])}
+		if len(f) >= 9 {
+			e.Mentor, e.Guard = c04OptStr(f[7]), c04OptStr(f[8])
+		}
+		return st.child(f[0] == "u2").Update(ctx, e, checker)
+	case "dc", "d2":
+		return st.child(f[0] == "d2").DeleteById(ctx, fromWire(f[1]))
 	case "da":
 		return st.a.DeleteById(ctx, fromWire(f[1]))
 	case "db":
@@ -431,23 +489,28 @@ func c04Observe(db *bbolt.DB, st *c04Stores) (fine, coarse string, nA, nB int) {
 			if bk := st.a.GetEntityBucket(btx, []byte(id)); bk != nil {
 				boss = c04FV(bk.GetString("boss"))
 			}
-			ext := "!"
-			if ce, cfound, cerr := st.c.FindById(btx, id); cerr != nil {
-				ext = "unreadable"
-			} else if cfound {
-				ext = c04FV(ce.Tag)
-				if c04FV(ce.Owner) != c04FV(e.Owner) || ce.Boss != e.Boss || c04FV(ce.Dep) != c04FV(e.Dep) {
-					ext += "/parent-fields-differ"
+			extOf := func(ch *c04CStore) string {
+				ext := "!"
+				if ce, cfound, cerr := ch.FindById(btx, id); cerr != nil {
+					ext = "unreadable"
+				} else if cfound {
+					ext = c04FV(ce.Tag) + "/" + c04FV(ce.Mentor) + "/" + c04FV(ce.Guard)
+					if c04FV(ce.Owner) != c04FV(e.Owner) || ce.Boss != e.Boss || c04FV(ce.Dep) != c04FV(e.Dep) {
+						ext += "/parent-fields-differ"
+					}
 				}
-			}
-			if st.c.IsEntityPresent(btx, id) != (ext != "!") {
-				ext += "/presence-differs"
+				if ch.IsEntityPresent(btx, id) != (ext != "!") {
+					ext += "/presence-differs"
+				}
+				return ext
 			}
 			cl = append(cl, "A:"+toWire(id)+":"+c04FV(e.Owner)+":"+boss+":"+c04FV(e.Dep)+":"+
-				c04HexList(st.a.GetRelatedEntitiesIdList(btx, id, "minions"))+":"+ext)
+				c04HexList(st.a.GetRelatedEntitiesIdList(btx, id, "minions"))+":"+extOf(st.c)+":"+extOf(st.c2))
 		}
 		for _, id := range bIds {
-			cl = append(cl, "B:"+toWire(id)+":"+c04HexList(st.b.GetRelatedEntitiesIdList(btx, id, "things")))
+			cl = append(cl, "B:"+toWire(id)+":"+c04HexList(st.b.GetRelatedEntitiesIdList(btx, id, "things"))+":"+
+				c04HexList(st.b.GetRelatedEntitiesIdList(btx, id, "mentees1"))+":"+
+				c04HexList(st.b.GetRelatedEntitiesIdList(btx, id, "mentees2")))
 		}
 		coarse = strings.Join(cl, "\n")
 		return nil
@@ -471,7 +534,7 @@ func c04Exec(line string) string {
 	}
 	verbose := f[0] == "v"
 	variant, err := strconv.Atoi(f[1])
-	if err != nil || variant < 0 || variant > 7 {
+	if err != nil || variant < 0 || variant > 255 {
 		return "bad-case"
 	}
 	db := c04OpenDb()
@@ -518,12 +581,35 @@ var c04Pool = []string{
 type c04Shadow struct {
 	boss, owner, dep map[string]string
 	b                map[string]bool
-	ext              map[string]bool // A ids with child-store data
+	ext              map[string]bool // A ids with data in child store C
+	ext2             map[string]bool // ... in child store C2
+	// mentor / guard values held by C (index 0) and C2 (index 1), "" = null
+	cm, cg [2]map[string]string
 }
 
 func c04NewShadow() *c04Shadow {
 	return &c04Shadow{boss: map[string]string{}, owner: map[string]string{}, dep: map[string]string{}, b: map[string]bool{},
-		ext: map[string]bool{}}
+		ext: map[string]bool{}, ext2: map[string]bool{},
+		cm: [2]map[string]string{{}, {}}, cg: [2]map[string]string{{}, {}}}
+}
+
+func (sh *c04Shadow) has(second bool) map[string]bool {
+	if second {
+		return sh.ext2
+	}
+	return sh.ext
+}
+
+// anyExt: ids with data in at least one child store
+func (sh *c04Shadow) anyExt() []string {
+	m := map[string]bool{}
+	for k := range sh.ext {
+		m[k] = true
+	}
+	for k := range sh.ext2 {
+		m[k] = true
+	}
+	return c04BKeys(m)
 }
 
 func (sh *c04Shadow) clone() *c04Shadow {
@@ -543,7 +629,27 @@ func (sh *c04Shadow) clone() *c04Shadow {
 	for k := range sh.ext {
 		n.ext[k] = true
 	}
+	for k := range sh.ext2 {
+		n.ext2[k] = true
+	}
+	for i := 0; i < 2; i++ {
+		for k, v := range sh.cm[i] {
+			n.cm[i][k] = v
+		}
+		for k, v := range sh.cg[i] {
+			n.cg[i][k] = v
+		}
+	}
 	return n
+}
+
+func (sh *c04Shadow) dropChildData(id string) {
+	delete(sh.ext, id)
+	delete(sh.ext2, id)
+	for i := 0; i < 2; i++ {
+		delete(sh.cm[i], id)
+		delete(sh.cg[i], id)
+	}
 }
 
 func c04Keys(m map[string]string) []string {
@@ -601,13 +707,13 @@ func (sh *c04Shadow) deleteA(id string) {
 			delete(sh.boss, k)
 			delete(sh.owner, k)
 			delete(sh.dep, k)
-			delete(sh.ext, k)
+			sh.dropChildData(k)
 		}
 	}
 	delete(sh.boss, id)
 	delete(sh.owner, id)
 	delete(sh.dep, id)
-	delete(sh.ext, id)
+	sh.dropChildData(id)
 }
 
 type c04GenCtx struct {
@@ -670,15 +776,45 @@ func (g *c04GenCtx) fkOk(id, owner string, ownerNil bool, boss, dep string, depN
 		(((depNil || dep == "") && depNullable) || (!depNil && dep != "" && sh.b[dep]))
 }
 
-// genChildCreate: Create through the child store — over an existing plain parent (fk values equal / changed /
-// cleared), for a fresh id, or over an entity that already has child data (refused)
+// declared: does child store ci (0 = C, 1 = C2) declare the mentor index / the guard constraint
+func (g *c04GenCtx) declared(ci int) (idx, fk bool) {
+	return g.variant&(8<<ci) != 0, g.variant&(32<<ci) != 0
+}
+
+// pickChildFks: mentor and guard values for a write through a child store
+func (g *c04GenCtx) pickChildFks() (m string, mNil bool, gd string, gNil bool) {
+	m, mNil = g.pickB(true)
+	gd, gNil = g.pickB(true)
+	if g.r.chance(1, 3) {
+		gd, gNil = m, mNil
+	}
+	return
+}
+
+func (g *c04GenCtx) childFksOk(ci int, m string, mNil bool, gd string, gNil bool) bool {
+	idx, fk := g.declared(ci)
+	return (!idx || mNil || m == "" || g.sh.b[m]) && (!fk || gNil || gd == "" || g.sh.b[gd])
+}
+
+// genChildCreate: Create through a child store — over an existing parent without data in that child store (plain, or
+// already holding data of the SIBLING child store; fk values equal / changed / cleared), for a fresh id, or over an
+// entity that already has data there (refused)
 func (g *c04GenCtx) genChildCreate() (string, bool) {
 	r, sh := g.r, g.sh
 	depNullable := g.variant&2 != 0
-	var plain []string
+	second := r.chance(1, 2)
+	ci := 0
+	if second {
+		ci = 1
+	}
+	has := sh.has(second)
+	var plain, sibling []string
 	for _, k := range c04Keys(sh.boss) {
-		if !sh.ext[k] {
+		if !has[k] {
 			plain = append(plain, k)
+			if sh.has(!second)[k] {
+				sibling = append(sibling, k)
+			}
 		}
 	}
 	tag, tagNil := pick(r, []string{"t", "", "a\"b"}), r.chance(1, 4)
@@ -688,6 +824,9 @@ func (g *c04GenCtx) genChildCreate() (string, bool) {
 	switch {
 	case mode < 6 && len(plain) > 0:
 		id = pick(r, plain)
+		if len(sibling) > 0 && r.chance(1, 2) {
+			id = pick(r, sibling) // the entity will hold data in both child stores
+		}
 		owner, boss, dep = sh.owner[id], sh.boss[id], sh.dep[id]
 		ownerNil, depNil = owner == "" && r.chance(2, 3), dep == "" && r.chance(2, 3)
 		switch sub := r.intn(10); {
@@ -714,7 +853,7 @@ func (g *c04GenCtx) genChildCreate() (string, bool) {
 				boss = ""
 			}
 		}
-	case mode < 9 || len(sh.ext) == 0:
+	case mode < 9 || len(has) == 0:
 		id = pick(r, g.aPool)
 		for _, c := range g.aPool {
 			if _, used := sh.boss[c]; !used && r.chance(3, 4) {
@@ -726,11 +865,12 @@ func (g *c04GenCtx) genChildCreate() (string, bool) {
 		dep, depNil = g.pickB(depNullable || r.chance(1, 8))
 		boss = g.pickBoss(id, "")
 	default:
-		id = pick(r, c04BKeys(sh.ext))
+		id = pick(r, c04BKeys(has))
 		owner, boss, dep = sh.owner[id], sh.boss[id], sh.dep[id]
 		ownerNil, depNil = owner == "", dep == ""
 	}
-	ok := !sh.ext[id] && g.fkOk(id, owner, ownerNil, boss, dep, depNil)
+	m, mNil, gd, gNil := g.pickChildFks()
+	ok := !has[id] && g.fkOk(id, owner, ownerNil, boss, dep, depNil) && g.childFksOk(ci, m, mNil, gd, gNil)
 	if ok {
 		if ownerNil {
 			owner = ""
@@ -738,27 +878,51 @@ func (g *c04GenCtx) genChildCreate() (string, bool) {
 		if depNil {
 			dep = ""
 		}
-		sh.boss[id], sh.owner[id], sh.dep[id], sh.ext[id] = boss, owner, dep, true
+		sh.boss[id], sh.owner[id], sh.dep[id], has[id] = boss, owner, dep, true
+		sh.cm[ci][id], sh.cg[ci][id] = m, gd
+		if mNil {
+			sh.cm[ci][id] = ""
+		}
+		if gNil {
+			sh.cg[ci][id] = ""
+		}
 	}
-	return "cc:" + toWire(id) + ":" + c04Opt(owner, ownerNil) + ":" + toWire(boss) + ":" + c04Opt(dep, depNil) + ":" + c04Opt(tag, tagNil), ok
+	verb := "cc:"
+	if second {
+		verb = "c2:"
+	}
+	return verb + toWire(id) + ":" + c04Opt(owner, ownerNil) + ":" + toWire(boss) + ":" + c04Opt(dep, depNil) + ":" + c04Opt(tag, tagNil) +
+		":" + c04Opt(m, mNil) + ":" + c04Opt(gd, gNil), ok
 }
 
-// genChildUpdate: Update through the child store (not found without child data)
+// genChildUpdate: Update through a child store (not found without data in that child store)
 func (g *c04GenCtx) genChildUpdate() (string, bool) {
 	r, sh := g.r, g.sh
 	depNullable := g.variant&2 != 0
+	second := r.chance(1, 2)
+	if len(sh.has(second)) == 0 && len(sh.has(!second)) > 0 {
+		second = !second
+	}
+	ci := 0
+	if second {
+		ci = 1
+	}
+	has := sh.has(second)
 	id := pick(r, c04Keys(sh.boss))
-	if ex := c04BKeys(sh.ext); len(ex) > 0 && r.chance(5, 6) {
+	if ex := c04BKeys(has); len(ex) > 0 && r.chance(5, 6) {
 		id = pick(r, ex)
 	}
-	mask := pick(r, []int{1, 2, 2, 4, 16, 17, 18, 3, 6, 7, 23, 8, 24, 0})
+	mask := pick(r, []int{1, 2, 2, 4, 16, 17, 18, 3, 6, 7, 23, 8, 24, 0, 32, 32, 64, 96, 34, 33, 100, 48})
 	owner, ownerNil := g.pickB(true)
 	dep, depNil := g.pickB(depNullable || r.chance(1, 8))
 	boss := g.pickBoss(id, id)
 	tag, tagNil := pick(r, []string{"t", "u", ""}), r.chance(1, 4)
+	m, mNil, gd, gNil := g.pickChildFks()
 	all := mask&8 != 0
 	nb, no, nd := sh.boss[id], sh.owner[id], sh.dep[id]
-	ok := sh.ext[id]
+	nm, ng := sh.cm[ci][id], sh.cg[ci][id]
+	idx, fk := g.declared(ci)
+	ok := has[id]
 	if ok {
 		if mask&2 != 0 || all {
 			_, bossOk := sh.boss[boss]
@@ -787,11 +951,37 @@ func (g *c04GenCtx) genChildUpdate() (string, bool) {
 			}
 			nd = d
 		}
+		if mask&32 != 0 || all {
+			v := m
+			if mNil {
+				v = ""
+			}
+			if idx && !(v == "" || sh.b[v] || v == nm) {
+				ok = false
+			}
+			nm = v
+		}
+		if mask&64 != 0 || all {
+			v := gd
+			if gNil {
+				v = ""
+			}
+			if fk && !(v == "" || sh.b[v] || v == ng) {
+				ok = false
+			}
+			ng = v
+		}
 		if ok {
 			sh.boss[id], sh.owner[id], sh.dep[id] = nb, no, nd
+			sh.cm[ci][id], sh.cg[ci][id] = nm, ng
 		}
 	}
-	return "uc:" + toWire(id) + ":" + strconv.Itoa(mask) + ":" + c04Opt(owner, ownerNil) + ":" + toWire(boss) + ":" + c04Opt(dep, depNil) + ":" + c04Opt(tag, tagNil), ok
+	verb := "uc:"
+	if second {
+		verb = "u2:"
+	}
+	return verb + toWire(id) + ":" + strconv.Itoa(mask) + ":" + c04Opt(owner, ownerNil) + ":" + toWire(boss) + ":" + c04Opt(dep, depNil) + ":" + c04Opt(tag, tagNil) +
+		":" + c04Opt(m, mNil) + ":" + c04Opt(gd, gNil), ok
 }
 
 // genOp returns the operation and whether the shadow expects it to succeed
@@ -812,7 +1002,7 @@ func (g *c04GenCtx) genOp() (string, bool) {
 	case x >= 34 && x < 46 && len(aEx) > 0:
 		return g.genChildCreate()
 	case x >= 64 && x < 72 && len(aEx) > 0:
-		if len(sh.ext) == 0 && r.chance(4, 5) {
+		if len(sh.ext)+len(sh.ext2) == 0 && r.chance(4, 5) {
 			return g.genChildCreate()
 		}
 		return g.genChildUpdate()
@@ -890,9 +1080,13 @@ func (g *c04GenCtx) genOp() (string, bool) {
 		case r.chance(1, 4):
 			// an entity with child data: ProcessBeforeDelete runs twice; preferably one whose boss refers back to it
 			// (the second round then finds the boss deleted by the first round's cascade, /repo 001d2d2)
-			if ex := c04BKeys(sh.ext); len(ex) > 0 {
+			if ex := sh.anyExt(); len(ex) > 0 {
 				id = pick(r, ex)
 				for _, c := range ex {
+					if sh.ext[c] && sh.ext2[c] && r.chance(1, 2) {
+						id = c // data in both child stores: the delete fans out over both
+						break
+					}
 					if b := sh.boss[c]; b != c && sh.inSubtree(c, b) && r.chance(2, 3) {
 						id = c
 						break
@@ -918,7 +1112,7 @@ func (g *c04GenCtx) genOp() (string, bool) {
 		sh.deleteA(id)
 		verb := "da:"
 		if r.chance(1, 4) {
-			verb = "dc:" // through the child store (goes to the parent's DeleteById)
+			verb = pick(r, []string{"dc:", "d2:"}) // through a child store (goes to the parent's DeleteById)
 		}
 		return verb + toWire(id), ok
 	default:
@@ -933,6 +1127,21 @@ func (g *c04GenCtx) genOp() (string, bool) {
 					ok = false
 				}
 			}
+			// restrict through the fks the child stores declare (checked after A's constraints)
+			childRef := false
+			for ci := 0; ci < 2; ci++ {
+				idx, fk := g.declared(ci)
+				for k, v := range sh.cm[ci] {
+					if idx && v == id && id != "" && sh.has(ci == 1)[k] {
+						childRef = true
+					}
+				}
+				for k, v := range sh.cg[ci] {
+					if fk && v == id && id != "" && sh.has(ci == 1)[k] {
+						childRef = true
+					}
+				}
+			}
 			var deps []string
 			for _, k := range c04Keys(sh.dep) {
 				if sh.dep[k] == id {
@@ -940,6 +1149,26 @@ func (g *c04GenCtx) genOp() (string, bool) {
 				}
 			}
 			ok = ok && (len(deps) == 0 || g.variant&1 != 0)
+			if ok && childRef {
+				// the dep cascade may have removed the child-store referrers: look again on a copy
+				probe := sh.clone()
+				for _, k := range deps {
+					probe.deleteA(k)
+				}
+				for ci := 0; ci < 2; ci++ {
+					idx, fk := g.declared(ci)
+					for _, v := range probe.cm[ci] {
+						if idx && v == id {
+							ok = false
+						}
+					}
+					for _, v := range probe.cg[ci] {
+						if fk && v == id {
+							ok = false
+						}
+					}
+				}
+			}
 			if ok {
 				for _, k := range deps {
 					sh.deleteA(k)
@@ -953,6 +1182,10 @@ func (g *c04GenCtx) genOp() (string, bool) {
 
 func c04GenHistory(r *rng, out *bufio.Writer, hostile bool) {
 	g := &c04GenCtx{r: r, variant: r.intn(8), sh: c04NewShadow()}
+	if r.chance(3, 4) {
+		// which child store declares the mentor index / the guard constraint, and the registration order of the two
+		g.variant |= r.intn(32) << 3
+	}
 	pool := c04Pool
 	if !hostile {
 		pool = []string{"a", "b", "c", "d", "e", "f", "g"}
@@ -1067,9 +1300,45 @@ func c04GenScripts(out *bufio.Writer) {
 	}
 }
 
+// scripted families for the fks declared by the child stores: every combination of "who declares the mentor index /
+// the guard constraint" and both registration orders; an entity x holding data in BOTH child stores refers to y through
+// every child fk; y must be refused while x is there, x's delete (through A, C, C2) must clear every back-reference, y
+// must go afterwards; clearing / moving the references through the child stores releases y as well
+func c04GenChildFkScripts(out *bufio.Writer) {
+	w := toWire
+	for hi := 0; hi < 32; hi++ {
+		for li, lo := range []int{1, 6} {
+			v := hi<<3 | lo
+			for i := (hi + li) % 6; i < len(c04Pool); i += 6 {
+				x := c04Pool[i]
+				y := c04Pool[(i+5)%len(c04Pool)]
+				z := c04Pool[(i+9)%len(c04Pool)]
+				r, k := "r", "k"
+				if x == r || y == r || z == r {
+					r = "root"
+				}
+				if x == k || y == k || z == k {
+					k = "keep"
+				}
+				pre := fmt.Sprintf("h %d cb:%s cb:%s ca:%s:~:%s:%s", v, w(k), w(y), w(r), w(r), w(k))
+				del := []string{"da", "dc", "d2"}[(hi+i)%3]
+				// created through C then C2 (and the other way round), deleted, then y
+				fmt.Fprintf(out, "%s cc:%s:~:%s:%s:74:%s:%s c2:%s:~:%s:%s:75:%s:%s db:%s %s:%s db:%s\n",
+					pre, w(x), w(r), w(k), w(y), w(y), w(x), w(r), w(k), w(y), w(y), w(y), del, w(x), w(y))
+				fmt.Fprintf(out, "%s c2:%s:~:%s:%s:74:%s:%s cc:%s:~:%s:%s:75:%s:%s ca:%s:~:%s:%s %s:%s db:%s\n",
+					pre, w(x), w(r), w(k), w(y), w(k), w(x), w(r), w(k), w(k), w(y), w(z), w(x), w(k), del, w(x), w(y))
+				// references moved / cleared through the child stores, missing target, then y
+				fmt.Fprintf(out, "%s cc:%s:~:%s:%s:74:%s:~ c2:%s:~:%s:%s:~:~:%s uc:%s:32:~:%s:~:~:%s:~ u2:%s:64:~:%s:~:~:~:%s db:%s uc:%s:96:~:%s:~:~:%s:%s u2:%s:8:~:%s:%s:~:~:~ db:%s\n",
+					pre, w(x), w(r), w(k), w(y), w(x), w(r), w(k), w(y), w(x), w(r), w(z), w(x), w(r), w(k), w(y), w(x), w(r), w(k), w(k), w(x), w(r), w(k), w(y))
+			}
+		}
+	}
+}
+
 func c04Gen(tier string, seed uint64, out *bufio.Writer) {
 	r := newRng(seed)
 	c04GenScripts(out)
+	c04GenChildFkScripts(out)
 	n := 1500
 	if tier == "thorough" {
 		n = 50000
